@@ -95,18 +95,26 @@ impl Delay {
         run.check_alloc = false;
         let op = Op::Proc { path: Path::Exact, slack_in: 0, slack_out: 0, mask: None, empty_inactive: false };
         if let Some((v, k)) = reuse {
-            if let Some(v) = v {
-                run.step(&Op::SetRatio { v, ramp: rng.bool(), rel: false });
+            if rng.bool() {
+                // ratio and chunk-size setters, masked calls, possibly a pending setter, then reset()
+                earlier_life(&mut run, &mut Rng::derive(&[k as u64, v.map(|x| x.to_bits()).unwrap_or(7), 0x11fe]));
+            } else {
+                if let Some(v) = v {
+                    run.step(&Op::SetRatio { v, ramp: rng.bool(), rel: false });
+                }
+                for _ in 0..k {
+                    run.step(&op);
+                }
+                run.step(&Op::Reset);
+                run.pos = 0;
             }
-            for _ in 0..k {
-                run.step(&op);
-            }
-            run.step(&Op::Reset);
-            run.pos = 0;
             st.add("clips_after_an_earlier_life_and_reset", 1.0);
         }
         if let Some(v) = pre_ratio {
             run.step(&Op::SetRatio { v, ramp: false, rel: false });
+        } else if (n0 as u64) % 10 < 3 {
+            // set_resample_ratio_relative(1.0): by the documentation a no-op
+            noop_relative(&mut run);
         }
         let delay = run.drv.getters().delay;
         let want_out = ((clip_len + tail) as f64 * r) as usize + delay + 8;
@@ -141,6 +149,11 @@ impl Delay {
         let mass: f64 = out.iter().sum();
         let mom: f64 = out.iter().enumerate().map(|(j, v)| j as f64 * v).sum();
         let want_mass = sigma * (2.0 * std::f64::consts::PI).sqrt() * r;
+        if mass.abs() <= 0.05 * want_mass {
+            // not smeared or attenuated but gone: the README recipe returns a clip without the event
+            cr.viols.push(Viol::new("C14", "pulse_lost", format!("a pulse centred at input frame {} (sigma {:.1}, expected mass {:.3}) is missing from the output stream (mass {:.3e} over {} output frames)", n0, sigma, want_mass, mass, out.len())));
+            return cr;
+        }
         if !(mass > 0.5 * want_mass && mass < 1.5 * want_mass) {
             cr.inconclusive = Some(format!("pulse mass {} (expected about {}): the pulse did not pass the resampler intact, centroid unusable", mass, want_mass));
             return cr;
